@@ -100,14 +100,75 @@ def templates():
     T.append(('set radicals to zero: diradical recombination',
               [('C', '.'), ('C', '.')], [(1, 0, 'single')],
               [('inc', 0, 1), ('radset', 0, 0), ('radset', 1, 0)]))
+    T.append(('decrease order of a single bond (homolysis)',
+              [('C', None), ('C', None)], [(1, 0, 'single')],
+              [('dec', 0, 1), ('rad+', 0), ('rad+', 1)]))
+    T.append(('decrease order of a single C-H bond',
+              [('C', None), ('H', None)], [(1, 0, 'single')],
+              [('rad+', 1), ('dec', 0, 1), ('rad+', 0)]))
+    T.append(('double bond decreased twice (to carbenes)',
+              [('C', None), ('C', None)], [(1, 0, 'double')],
+              [('dec', 0, 1), ('dec', 0, 1), ('rad+', 0), ('rad+', 0),
+               ('rad+', 1), ('rad+', 1)]))
+    T.append(('single bond increased twice (to triple)',
+              [('C', ':'), ('C', ':')], [(1, 0, 'single')],
+              [('inc', 0, 1), ('inc', 0, 1), ('rad-', 0), ('rad-', 0),
+               ('rad-', 1), ('rad-', 1)]))
+    T.append(('O-O scission by decrease', [('O', None), ('O', None)],
+              [(1, 0, 'single')],
+              [('dec', 0, 1), ('rad+', 0), ('rad+', 1)]))
     T.append(('ring opening of a C-C ring bond', [('C', None), ('C', None)],
               [(1, 0, 'single')],
               [('break', 0, 1, None), ('rad+', 0), ('rad+', 1)]))
     return T
 
 
+_KIND = {1: 'single', 2: 'double', 3: 'triple'}
+_RADSFX = {0: None, 1: '.', 2: ':', 3: ':.'}
+
+
+def systematic_templates():
+    """Every bond edit on every bond order, with the radical compensation
+    that balances it: pairs X-Y in {C-C, C-O, C-H, O-H}, pattern order k,
+    edit in {typed break, decrease x j, increase x j, modify to k'}."""
+    out = []
+    for (x, y, kmax) in (('C', 'C', 3), ('C', 'O', 2), ('C', 'H', 1),
+                         ('O', 'H', 1), ('O', 'O', 1)):
+        for k in range(1, kmax + 1):
+            bonds = [(1, 0, _KIND[k])]
+            plain = [(x, None), (y, None)]
+
+            def comp(delta):
+                # delta > 0: electrons released -> radicals increase
+                op = 'rad+' if delta > 0 else 'rad-'
+                return [(op, 0)] * abs(delta) + [(op, 1)] * abs(delta)
+            out.append(('%s-%s order %d: typed break' % (x, y, k), plain,
+                        bonds, [('break', 0, 1, _KIND[k])] + comp(k)))
+            for j in range(1, k + 1):
+                out.append(('%s-%s order %d: decrease x%d' % (x, y, k, j),
+                            plain, bonds, [('dec', 0, 1)] * j + comp(j)))
+            for k2 in range(1, kmax + 1):
+                if k2 < k:
+                    out.append(('%s-%s order %d: modify to %d' % (x, y, k,
+                                                                  k2),
+                                plain, bonds,
+                                [('modify', 0, 1, _KIND[k2])] + comp(k - k2)))
+                elif k2 > k:
+                    d = k2 - k
+                    rad = [(x, _RADSFX[d]), (y, _RADSFX[d])]
+                    out.append(('%s-%s order %d: modify to %d' % (x, y, k,
+                                                                  k2),
+                                rad, bonds,
+                                comp(-d) + [('modify', 0, 1, _KIND[k2])]))
+                    out.append(('%s-%s order %d: increase x%d' % (x, y, k,
+                                                                  d),
+                                rad, bonds, [('inc', 0, 1)] * d + comp(-d)))
+    return out
+
+
 def gen_rule(rng, unbalanced=False):
-    desc, atoms, bonds, edits = rng.choice(templates())
+    desc, atoms, bonds, edits = rng.choice(templates() +
+                                           systematic_templates())
     edits = list(edits)
     kind = 'balanced'
     if unbalanced:
